@@ -68,17 +68,32 @@ func (j *JApi) ToJsonIndent() ([]byte, error) {
 }
 
 func (j *JApi) ToOpenAPIJson() ([]byte, error) {
-	o, err := openapi.NewOpenAPI(j.Catalog())
-	if err != nil {
-		return nil, err
-	}
-	return json.Marshal(o)
+	return openAPIPanicFree(func(o *openapi.OpenAPI) ([]byte, error) {
+		return json.Marshal(o)
+	}, j.Catalog())
 }
 
 func (j *JApi) ToOpenAPIJsonIndent() ([]byte, error) {
-	o, err := openapi.NewOpenAPI(j.Catalog())
-	if err != nil {
-		return nil, err
+	return openAPIPanicFree(func(o *openapi.OpenAPI) ([]byte, error) {
+		return json.MarshalIndent(o, "", "  ")
+	}, j.Catalog())
+}
+
+// openAPIPanicFree converts the catalog and marshals the result. The converter and the schema
+// library behind it panic on schemas they cannot express (a user type with the notation
+// "empty", some "or" rules); the caller gets an error value instead.
+func openAPIPanicFree(
+	marshal func(*openapi.OpenAPI) ([]byte, error),
+	c *catalog.Catalog,
+) (b []byte, err error) {
+	defer func() {
+		if r := recover(); r != nil {
+			b, err = nil, fmt.Errorf("%v", r)
+		}
+	}()
+	o, oerr := openapi.NewOpenAPI(c)
+	if oerr != nil {
+		return nil, oerr
 	}
-	return json.MarshalIndent(o, "", "  ")
+	return marshal(o)
 }
